@@ -21,6 +21,7 @@ EXPLANATION = (
     "!handshake_sent(), set_handshake_sent precedes every re-insertion after a successful handshake generation, and "
     "the handshake_sent edge leads to fail_request. R5: the id-nonce of a WHOAREYOU comes from rand::random only and "
     "the stored challenge data is the authenticated data of that very packet.")
+EXPLANATION += (' Added while testing: R1 also requires the challenge to be taken out of the table before establish_from_challenge on every path; R5 also requires send_challenge to build, send and store a WHOAREYOU only when none is outstanding for the node.')
 NOT_DECIDED = ["timing: that the delay map fires after exactly request_timeout", "re-insertion on a bad signature restarts the challenge timer (noted, not a clause of C03)"]
 TRUSTED = ["delay_map::HashMapDelay::remove removes the entry and its timer; expired entries are yielded by the stream"]
 
